@@ -275,6 +275,14 @@ func (r *runner) once(cfg *Config, prefix []int, trace func(string)) (*Exec, *re
 		// test (relaunched nodes) are closed by the finalizers of the unreachable os.Files
 		_ = os.RemoveAll(r.logDir)
 		runtime.GC()
+		// Node.setup exports STEP_<id>_DAG_EXECUTION_LOG_PATH for an ever growing node id: drop them
+		for _, kv := range os.Environ() {
+			if strings.HasPrefix(kv, "STEP_") {
+				if i := strings.IndexByte(kv, '='); i > 0 {
+					_ = os.Unsetenv(kv[:i])
+				}
+			}
+		}
 	}
 	steps, scripts := buildSteps(cfg)
 	x := &Exec{Cfg: cfg, StopAt: -1, Handlers: map[string]NodeFinal{}}
